@@ -25,6 +25,9 @@ var kindReads = map[string][]string{
 	"providers": {"prov"}, "audits": {"attest"}, "auditor": {"attest"}, "eaccts": {"eacct"}, "epays": {"epay"},
 	"deployment": {"dep", "grp", "eacct"}, "group": {"grp"}, "order": {"ord"}, "bid": {"bid", "eacct"}, "lease": {"lease", "epay"},
 	"provider": {"prov"}, "audit_owner": {"attest"}, "audit_pair": {"attest"}, "eacct": {"eacct"}, "epay": {"epay"},
+	"k_deployments": {"dep"}, "k_orders": {"ord"}, "k_bids": {"bid"}, "k_leases": {"lease"}, "k_providers": {"prov"}, "k_attests": {"attest"},
+	"k_groups": {"dep", "grp"}, "k_ordersforgroup": {"grp", "ord"}, "k_bidsfororder": {"ord", "bid"}, "k_bidcount": {"ord", "bid"},
+	"k_leasefororder": {"ord", "bid", "lease"}, "k_attests_owner": {"attest", "prov"},
 }
 
 type tnode struct {
